@@ -51,7 +51,7 @@ func (c10) Info() core.Info {
 		Level: "exploration",
 		Rule: "probe expressions applying each documented scalar function (upper, lower, strlen, str, int, float, is_int, is_float, split, join, len, list, int_list/ilist, float_list/flist, l2_distance, cosine_distance, json) and [n] / [name] indexing chains (to depth 3, on every list representation) to arguments read from key/value; stores rotate a 6-key x 12-value text pool (all 72 (key,value) argument pairs), plus JSON-document stores; every probe is evaluated (a) row-dependent as a select field over the whole store, (b) with each pair's arguments substituted as constants (the constant-folding path), (c) as a WHERE outcome `probe = expected` / Boolean probe, in row mode and batch mode (B in {1,2,32}); different-length vectors must be refused with an error. " +
 			"Oracle: an independent re-implementation of each function from its README one-liner (DESIGN.md §3.2); floats compared to 1e-12. Non-trivial: the probe is in the reference's domain on the pair and yields a non-empty / non-zero / true value. Distinct: (probe, form, store, mode, B)." +
-			" Also: JSON documents wrapped in and spread out by blanks, tabs and line ends; numeric text inside list() (kept as text or read as a number: only float() / int() of an element and len of the list are judged).",
+			" Also: JSON documents wrapped in and spread out by blanks, tabs and line ends; numeric text inside list() (kept as text or read as a number: only float() / int() of an element and len of the list are judged); (e) representation-free: a probe with a scalar root over lower(key) / lower(value) yields what the probe yields on pairs without upper-case letters (blank-padded numeric text included).",
 		Assumptions: []string{"substr and quantile are not in the property's list (left to C03/C06)", "negative integer results are not used as WHERE literals (the language has no unary minus)", "upper/lower are judged on ASCII text only"},
 	}
 }
@@ -61,7 +61,9 @@ var c10Vals = []string{"", "a", "Ab", "a,b", "12", "-3", "1.5", "x1", "a,b,,c", 
 	// the edges of the int reading: int64 limits and their neighbours, a sign, leading zeros beyond 19 digits
 	"9223372036854775807", "9223372036854775808", "-9223372036854775808", "-9223372036854775809", "+5", "0000000000000000000000123",
 	// bytes that are no valid UTF-8 next to ASCII letters of both cases
-	"\xffaB", "Zz\xc3", "q\xf0\x9fQ"}
+	"\xffaB", "Zz\xc3", "q\xf0\x9fQ",
+	// numeric text with blanks around it is no number ("as text" and "as stored bytes" read alike)
+	" 1.5", "2.25\n", "\t-3", "4 "}
 var c10Docs = []string{
 	`{"a":1,"l":[1,"y"],"o":{"b":"x","l":[2,3]},"s":"t"}`,
 	`{"a":"x","l":["p","q","r"],"o":{"b":[1,"y"],"l":["z"]},"s":""}`,
@@ -290,12 +292,52 @@ func (c10) RunUnit(t core.Tier, u int, r *core.Reporter) {
 			if cfg.mode == drv.Batch || cfg.b == 32 {
 				run(c10Case{Probe: pr.e, Form: "context-free", Store: ps, Mode: cfg.mode, B: cfg.b})
 			}
+			// (e) a function's value depends on its argument's text, not on how the
+			// engine happens to hold that text: `lower(x)` is x for text without
+			// upper-case letters, so the probe over lower(key) / lower(value)
+			// yields what the probe yields (non-numbers, padded numbers included)
+			if c10ScalarRoot(pr.e) {
+				var plain []store.Pair
+				for _, p := range ps {
+					if strings.ToLower(p.K) == p.K && strings.ToLower(p.V) == p.V {
+						plain = append(plain, p)
+					}
+				}
+				if len(plain) > 0 {
+					run(c10Case{Probe: pr.e, Form: "representation-free", Store: plain, Mode: cfg.mode, B: cfg.b})
+				}
+			}
 			for _, p := range refuse {
 				run(c10Case{Probe: pr.e, Form: "refuse", Store: []store.Pair{p}, Mode: cfg.mode, B: cfg.b})
 				run(c10Case{Probe: substKV(pr.e, p.K, p.V), Form: "refuse", Store: []store.Pair{p}, Mode: cfg.mode, B: cfg.b})
 			}
 		}
 	}
+}
+
+// c10ScalarRoot: the probe is a call whose result is a number, a Boolean or text.
+func c10ScalarRoot(e *ref.Expr) bool {
+	if e.K != "call" {
+		return false
+	}
+	switch e.Op {
+	case "int", "float", "is_int", "is_float", "strlen", "upper", "lower", "len":
+		return true
+	}
+	return false
+}
+
+// c10LowerLeaves wraps every key / value leaf in lower().
+func c10LowerLeaves(e *ref.Expr) *ref.Expr {
+	if e.K == "key" || e.K == "value" {
+		return ref.Call("lower", e)
+	}
+	c := *e
+	c.A = make([]*ref.Expr, len(e.A))
+	for i, a := range e.A {
+		c.A[i] = c10LowerLeaves(a)
+	}
+	return &c
 }
 
 // substKV replaces key / value by text literals.
@@ -382,6 +424,26 @@ func c10Judge(c *c10Case) (f *core.Failure, nontrivial bool, status, observed st
 			return mk("panic", "an error value", out.Describe()), true, "", observed
 		}
 		return nil, true, "refused", observed
+	case "representation-free":
+		tw := *c
+		tw.Probe = c10LowerLeaves(c.Probe)
+		tw.Form = "field"
+		s2 := store.New(c.Store)
+		s2.NoLog = true
+		o2 := drv.Run(tw.query(), s2, drv.Opt{Mode: c.Mode, B: c.B})
+		if out.Panic != "" || o2.Panic != "" {
+			return mk("panic", "rows or an error value", out.Describe()+" / "+o2.Describe()), true, "", observed
+		}
+		if out.Failed() || o2.Failed() {
+			if out.Failed() != o2.Failed() {
+				return mk("value-depends-on-representation", "the same outcome as "+tw.query()+": "+o2.Describe(), out.Describe()), true, "", observed
+			}
+			return nil, false, "both-fail", observed
+		}
+		if !drv.EqualRows(out.Rows, o2.Rows) {
+			return mk("value-depends-on-representation", "the rows of "+tw.query()+": "+o2.Describe(), out.Describe()), true, "", observed
+		}
+		return nil, len(out.Rows) > 0, "ok", observed
 	case "context-free":
 		// each pair alone, row mode: the probe's value on that pair
 		var want []string
